@@ -191,6 +191,22 @@ func evalKnownIds(v ssa.Value, env map[*ssa.Phi]ssa.Value) (string, bool) {
 	if core.IsNilConst(v) {
 		return "", true
 	}
+	// a helper that builds the list (no parameters involved)
+	if vals, _, h := helperResult(v); h != nil && len(vals) == 1 {
+		return evalKnownIds(vals[0], map[*ssa.Phi]ssa.Value{})
+	}
+	// a slice literal []KnownId{a, b}
+	if elems, ok := sliceLiteralElems(v); ok {
+		var parts []string
+		for _, e := range elems {
+			s, ok := core.ConstString(core.Strip(e))
+			if !ok {
+				return "", false
+			}
+			parts = append(parts, s)
+		}
+		return strings.Join(parts, ","), true
+	}
 	base, elems, ok := appendParts(v)
 	if !ok {
 		return "", false
